@@ -24,7 +24,7 @@ PLAN = {
     "thorough": {"shards": 16, "shard_timeout": 3600, "case_timeout": 90, "steps": 700000, "runs": 24000, "max_case_timeouts": 10},
 }
 THRESHOLDS = {
-    "quick": {"elitism_applications": 1400, "with_ties": 400, "minimising": 400, "iterator_inputs": 300, "multi_objective": 200, "generations_with_elitism_slot": 300, "runs": 50, "with_infinite_values": 200, "with_near_equal_values": 200, "multi_objective_runs": 15, "runs_with_elitism_after_a_sibling": 20, "runs_with_lexicase_sibling": 8, "populations_scored_under_the_opposite_direction_first": 300},
+    "quick": {"runs_with_weights_changing_during_the_search": 5, "generations_whose_weights_in_force_give_elitism_a_slot": 30, "elitism_applications": 1400, "with_ties": 400, "minimising": 400, "iterator_inputs": 300, "multi_objective": 200, "generations_with_elitism_slot": 300, "runs": 50, "with_infinite_values": 200, "with_near_equal_values": 200, "multi_objective_runs": 15, "runs_with_elitism_after_a_sibling": 20, "runs_with_lexicase_sibling": 8, "populations_scored_under_the_opposite_direction_first": 300},
     "thorough": {"elitism_applications": 38000, "generations_with_elitism_slot": 10000},
 }
 
